@@ -1,8 +1,8 @@
 package main
 
 import (
-	"math/big"
 	"fmt"
+	"math/big"
 	"strings"
 )
 
@@ -118,14 +118,14 @@ func genTextOps(r *Rng, i int, tier string) []Op {
 			num := new(big.Int).Lsh(k, w)
 			num.Div(num, big.NewInt(mult))
 			num.Add(num, big.NewInt(int64(r.Intn(3))))
-			ops = append(ops, Op{"parsedur " + hexOfString(num.String() + string(u)), true})
-			ops = append(ops, Op{"parsearch " + hexOfString("1s:" + num.String() + string(u)), true})
+			ops = append(ops, Op{"parsedur " + hexOfString(num.String()+string(u)), true})
+			ops = append(ops, Op{"parsearch " + hexOfString("1s:"+num.String()+string(u)), true})
 			// and plain long digit strings
 			var b strings.Builder
 			for j := 0; j < 10+r.Intn(14); j++ {
 				b.WriteByte("0123456789"[r.Intn(10)])
 			}
-			ops = append(ops, Op{"parsedur " + hexOfString(b.String() + string(u)), true})
+			ops = append(ops, Op{"parsedur " + hexOfString(b.String()+string(u)), true})
 		case 4: // timestamps: print then parse
 			var t uint64
 			if r.Bool() {
